@@ -197,6 +197,7 @@ type Profile struct {
 	Crash        bool
 	Relist       bool
 	Reload       bool
+	Typo         bool // the configmap may be published with one mistyped range (the reload has to refuse it as a whole)
 	Restore      bool // reloads may bring back the range dropped last (C03: lost records are adopted again)
 	AdminRelease bool
 	AdminList    bool
@@ -235,6 +236,7 @@ func profileFor(prop string) Profile {
 		p.Ops = [2]int{15, 50}
 		p.Stall = true
 		p.Reload, p.Crash = true, true // histories include restarts and reloads: the tables are rebuilt from the store
+		p.Typo = true
 		p.Relist = true                // a dropped watch: the informer re-lists and events arrive late or as tombstones
 	case "C03":
 		p.Relist, p.AdminRelease = true, true
@@ -249,6 +251,7 @@ func profileFor(prop string) Profile {
 		p.Stall = true
 	case "C09":
 		p.Reload, p.Reserve = true, true
+		p.Typo = true
 		p.Probe = "memcheck"
 		p.Faults = true // not in the property's quantifier; a reload that failed once must still be retried (convergence clause)
 	case "C05":
@@ -341,6 +344,7 @@ type World struct {
 	poolBodies                     map[string][][]byte // pool name -> bodies of earlier create-or-update requests
 	aheadNum                       int                 // of 8: how often kube-scheduler works on a pod galaxy-ipam's informer has not seen yet (per-run swarm parameter)
 	everDropped                    map[string]bool
+	typoActive                     bool // the configmap holds a text with a mistyped range (refused as a whole by galaxy-ipam)
 	cloudStale                     map[string]bool // provider assignments whose record was dropped by a configuration change (C10)
 	rebuilds                       []int // steps at which galaxy-ipam listed the stored FloatingIPs (tables rebuilt from the store)
 	memVer                         int // configuration version the tables were last known to hold (raised when a reload or a start completes)
@@ -1107,6 +1111,11 @@ func (w *World) Idle() bool {
 	if w.probe != nil {
 		return w.probeIdle()
 	}
+	if !w.ready && w.typoActive {
+		// galaxy-ipam does not start with a configuration it has to refuse: the administrator notices and repairs the text
+		w.fixTypo()
+		return true
+	}
 	if !w.ready {
 		// init is blocked on a timer (configmap poll)
 		if ts, ok := w.S.NextTimer(false); ok {
@@ -1129,8 +1138,15 @@ func (w *World) Idle() bool {
 		}
 		w.phase = 2
 		w.faultsOn = false
+		if w.typoActive {
+			w.fixTypo() // the mistyped text is repaired before the run is judged
+		}
 		return true
 	case 2:
+		if w.typoActive {
+			w.fixTypo() // the mistyped text is repaired before the run is judged
+			return true
+		}
 		if w.armed("C09") && w.settleRounds < 3 {
 			// let the periodic configuration reload run (it retries every minute) before judging convergence
 			w.settleRounds++
@@ -1151,6 +1167,16 @@ func (w *World) Idle() bool {
 		return w.finalChecks()
 	}
 	return false
+}
+
+// fixTypo publishes the newest configuration version again, as valid text.
+func (w *World) fixTypo() {
+	js := w.topo.JSON()
+	w.K.Patch(nil, "configmaps", "kube-system", "floatingip-config", func(m map[string]interface{}) {
+		m["data"] = map[string]interface{}{"floatingips": js}
+	})
+	w.typoActive = false
+	w.S.Logf("conf typo repaired -> %s", js)
 }
 
 func taskNames(ts []*core.Task) string {
